@@ -98,6 +98,9 @@ def _pure_stdlib():
         if hasattr(math, n):
             t[("math", n)] = getattr(math, n)
     t[("collections", "OrderedDict")] = collections.OrderedDict
+    # the syntax-tree library: pure functions over trees (generators are materialised by _stdlib)
+    for n in ("parse", "unparse", "walk", "iter_child_nodes", "iter_fields", "literal_eval", "dump", "get_source_segment", "fix_missing_locations", "copy_location", "get_docstring"):
+        t[("ast", n)] = getattr(ast, n)
     for n in ("sub", "subn", "match", "fullmatch", "search", "findall", "split", "escape"):
         t[("re", n)] = getattr(_re, n)
     return t
@@ -757,7 +760,7 @@ class Interp:
     def _stdlib(self, fn, args, kwargs, node):
         try:
             r = fn(*args, **kwargs)
-        except (ValueError, TypeError, ZeroDivisionError, OverflowError, KeyError, IndexError) as e:
+        except (ValueError, TypeError, ZeroDivisionError, OverflowError, KeyError, IndexError, SyntaxError, RecursionError, MemoryError) as e:
             raise Raised(type(e).__name__, "", node)
         import types
         if isinstance(r, (types.GeneratorType,)) or type(r).__module__ == "itertools":
